@@ -254,9 +254,9 @@ def run(rep, tier):
             return ("CAST", True)
         return None
     for h in ("float+", "int+"):
-        ok_h, why_h = len(rv) == 1, "expected a single return"
+        val = result_term(fiv)
+        ok_h, why_h = val is not None, "no return found"
         if ok_h:
-            val = rv[0]["value"]
             stack, asat = [val], set()
             while stack:
                 c_ = stack.pop()
@@ -336,9 +336,69 @@ def is_escaper(F, callee):
     for f in fs:
         strs = set(strings_in(f.body))
         chars = {x.get("v") for x in f.walk() if x.get("k") == "char"}
-        if {"&amp;", "&lt;", "&gt;", "&quot;"} <= strs and {ord("&"), ord("<"), ord(">"), ord('"')} <= chars:
+        if {"&amp;", "&lt;", "&gt;", "&quot;"} <= strs and ({ord("&"), ord("<"), ord(">"), ord('"')} <= chars or any(set("&<>\"") <= set(v_) for v_ in strs)):
             return True
     return False
+
+
+def appended_piece(step, csym, acc, ch):
+    """the text a folded per-character step appends to the accumulated string `acc` when the character is `ch` (None: not decided).  Understands
+    ?:/if on comparisons, string::find of a character in a literal, and subscripts into a literal list."""
+    NPOS = "npos"
+
+    def ev(t):
+        if isinstance(t, tuple):
+            if t and t[0] == "ite" and len(t) == 4:
+                c = ev(t[1])
+                return None if c is None else ev(t[2] if c else t[3])
+            if t and t[0] == "cat" and len(t) == 3:
+                a_, b_ = t[1], ev(t[2])
+                if b_ is None:
+                    return None
+                b_ = chr(b_) if isinstance(b_, int) else b_
+                if a_ == acc:
+                    return ("acc", b_)
+                a_ = ev(a_)
+                if isinstance(a_, tuple) and a_[0] == "acc" and isinstance(b_, str):
+                    return ("acc", a_[1] + b_)
+                return None
+            if t and t[0] in ("==", "!=") and len(t) == 3:
+                a_, b_ = ev(t[1]), ev(t[2])
+                if a_ is None or b_ is None:
+                    return None
+                return (a_ == b_) == (t[0] == "==")
+            if t and t[0] == "!" and len(t) == 2:
+                c = ev(t[1])
+                return None if c is None else (not c)
+            return None
+        if t == csym:
+            return ch
+        if isinstance(t, (int, sp.Integer)):
+            return int(t)
+        if isinstance(t, sp.Symbol):
+            nm = t.name
+            if nm.endswith("::npos"):
+                return NPOS
+            if len(nm) >= 2 and nm[0] == '"' and nm[-1] == '"':
+                return nm[1:-1]
+            return None
+        fn = str(getattr(t, "func", ""))
+        if fn == "ctor" and t.args:
+            return ev(t.args[0])
+        if fn == "find" and len(t.args) in (2, 3):
+            s_, c_ = ev(t.args[0]), ev(t.args[1])
+            if isinstance(s_, str) and isinstance(c_, int) and (len(t.args) == 2 or ev(t.args[2]) == 0):
+                i_ = s_.find(chr(c_))
+                return NPOS if i_ < 0 else i_
+            return None
+        if fn == "at" and len(t.args) == 2 and str(getattr(t.args[0], "func", "")) == "list":
+            k_ = ev(t.args[1])
+            if isinstance(k_, int) and 0 <= k_ < len(t.args[0].args):
+                return ev(t.args[0].args[k_])
+            return None
+        return None
+    r = ev(step)
+    return r[1] if isinstance(r, tuple) and r[0] == "acc" else None
 
 
 def lint_xml(rep, heads, reserved):
@@ -503,6 +563,25 @@ def unwrap_fn(a):
     return None
 
 
+def result_term(fo):
+    """the boolean a function returns, as one term: its returns in program order, each under the conjunction of its path conditions
+    (`if (ok) return true; return other;` is `ok ? true : other`)"""
+    rets = [e for e in fo.events if e["kind"] == "return"]
+    if not rets:
+        return None
+    term = None
+    for e in reversed(rets):
+        g = None
+        for c_, pol_, _n in e["guards"]:
+            t_ = c_ if pol_ else ("!", c_)
+            g = t_ if g is None else ("&&", g, t_)
+        v = e["value"]
+        v = True if v in (True, sp.true) else False if v in (False, sp.false) else v
+        term = v if (g is None or term is None) else ("ite", g, v, term)
+    return term
+
+
+
 def check_multichoice(rep, iv):
     """multi-selection choices ('[a,b,c]'): the value is valid exactly when EVERY word is a declared choice.  Decided by running the folded
     word loop on an abstract two-word value for the four membership combinations."""
@@ -535,7 +614,13 @@ def check_multichoice(rep, iv):
         for r_ in rets:
             find_terms(r_["value"])
         terms = [t_ for t_ in terms if "find(" in str(t_[2]) and cp in str(t_[2]) and ("elem@%s" % t_[1]) in str(t_[2])]
-        if len(terms) != 1 or len(rets) != 1:
+        for r_ in rets:
+            for g_ in r_["guards"]:
+                find_terms(g_[0])
+        terms = [t_ for i_, t_ in enumerate(terms) if t_ not in terms[:i_]]
+        terms = [t_ for t_ in terms if "find(" in str(t_[2]) and cp in str(t_[2]) and ("elem@%s" % t_[1]) in str(t_[2])]
+        whole = result_term(fo)
+        if len(terms) != 1 or whole is None:
             rep.broken("R11.3", "IsValidOption: neither a loop nor an all_of/any_of/none_of over the words of a multi-selection value was found")
             return
         kind, lid, pc = terms[0]
@@ -575,7 +660,7 @@ def check_multichoice(rep, iv):
                 return None
             for m1, m2 in itertools.product((True, False), repeat=2):
                 A = {"TERM": term_value(m1, m2), "TYPED": False, "ADD": False, "MULTI": True}
-                t_ = decide(rets[0]["value"], None, A, orc_t, conds)
+                t_ = decide(whole, None, A, orc_t, conds)
                 if t_ is None or t_ != (m1 and m2):
                     bad = "for a two-word value whose words are %s / %s the result is %s (required %s)" % ("declared" if m1 else "UNDECLARED", "declared" if m2 else "UNDECLARED", t_, m1 and m2)
                     break
@@ -684,6 +769,20 @@ def check_escaper(rep, F, pn):
                         if x.get("k") == "str":
                             table.setdefault(ch[0], set()).add(x["v"])
     tab_ok = all(ENT[c] in {str(v) for v in table.get(c, set())} | {str(v) for v in table.get(chr(c), set())} for c in ENT)
+    if not table:
+        # no switch / if-chain on character literals: decide what the folded per-character step appends for each markup character (lookup tables)
+        fv = Fold(esc).run()
+        pieces = {}
+        for l in getattr(fv, "loops", []):
+            if l.get("var") is None or str(l.get("range")) != pname:
+                continue
+            for key, stp in l["step"].items():
+                got = {ch: appended_piece(stp, l["var"], l["syms"].get(key), ch) for ch in list(ENT) + [ord("a")]}
+                if all(v is not None for v in got.values()):
+                    pieces = got
+        if pieces:
+            table = {ch: {pieces[ch]} for ch in pieces}
+            tab_ok = all(pieces[c] == ENT[c] for c in ENT) and pieces[ord("a")] == "a"
     rep.check(tab_ok, "R11.4", "escaper|table", "& < > \" are mapped to &amp; &lt; &gt; &quot;", "%s: the per-character table is %s" % (esc.qname, {str(k): sorted(v) for k, v in table.items()}), esc.loc(), sample=True)
     # (2) shortcuts: a return of the unmodified text needs a test that excludes every markup character
     fo = Fold(esc, inline=False).run()
